@@ -34,8 +34,9 @@ def analyse(prop: str, tier: str, root: str | None = None, overlay: dict | None 
     res = Result(prop, prog)
     pack.run(prog, res, tier)
     errs = res.check_floors()
-    if errs:
+    if errs and not res.violations():
         raise AnalysisError("; ".join(errs))
+    res.notes += [f"floor not met (reported together with the violations): {e}" for e in errs]
     return res
 
 
